@@ -299,7 +299,9 @@ def r_escape(ctx) -> RuleResult:
     elem_attrs = repo.try_const("tucan.element_attributes", "ELEMENT_ATTRS", None)
     if not isinstance(elem_attrs, dict) or not elem_attrs:
         raise AnalysisError("R-ESCAPE: ELEMENT_ATTRS cannot be evaluated to a constant table")
-    dmap = repo.try_const("tucan.parser.parser", "_DESERIALIZER_NODE_ATTRIBUTE_MAPPING", {}) or {}
+    from .common import attribute_spelling_tables
+    (_sn, _sm), (DNAME, dmap) = attribute_spelling_tables(ctx)
+    dmap = dmap or {}
     g_elems = {l for l in literals_of(G.g4, "sum_formula")} - {str(d) for d in range(10)} if "sum_formula" in G.g4 else set()
     g_keys = literals_of(G.g4, "node_property_key") if "node_property_key" in G.g4 else set()
 
@@ -341,7 +343,7 @@ def r_escape(ctx) -> RuleResult:
                     res.inst(fi.fq, short(n), "ok" if ok else "fail", detail=f"grammar's {len(g_elems)} element literals ⊆ table keys")
                     if not ok:
                         res.fail(Finding("R-ESCAPE", fi.module.rel, fi.qualname, norm(n), f"the grammar accepts element symbols {sorted(g_elems - set(elem_attrs))[:5]} that are not in ELEMENT_ATTRS: KeyError instead of {exc.name}", line=n.lineno))
-                elif tbl == "_DESERIALIZER_NODE_ATTRIBUTE_MAPPING":
+                elif tbl == DNAME:
                     ok = bool(g_keys) and g_keys <= set(dmap)
                     res.inst(fi.fq, short(n), "ok" if ok else "fail", detail=f"grammar's attribute keys {sorted(g_keys)} ⊆ table keys")
                     if not ok:
